@@ -13,7 +13,8 @@
 
    cfF = one-off job with the repaired timer branch (the code after the fix: commit),
    cfU = one-off job as found in the pinned tree, cfP = periodic job. *)
-From Verif Require Import Lib.Base Lib.Sched Lib.Reach Model.C02_Scheduler Model.C02_Script Proofs.C02.
+From Verif Require Import Lib.Base Lib.Sched Lib.Reach Model.C02_Scheduler Model.C02_Script Proofs.C02 Proofs.C02_Script Proofs.C02_ScriptExact Proofs.C02_ScriptMore Proofs.C02_ScriptCancel.
+From Verif Require Import Model.C02_TableOps Check.C02 Proofs.C02_Check.
 
 (* never twice: under every schedule jobFunc of a one-off job is called at most once, and at most
    one call is in progress; no send on / close of a closed channel ever happens.  Holds for the
@@ -237,6 +238,37 @@ Theorem C02_duplicate_rejected :
 Proof. exact duplicate_rejected. Qed.
 Print Assumptions C02_duplicate_rejected.
 
+(* a re-scheduled name stays listed (repaired removeJob): when the goroutine of an earlier job j1
+   of the name leaves, a newer job j2 that holds the name is untouched -- and so is every other
+   name; the goroutine's own entry is removed *)
+Theorem C02_rescheduled_job_stays_listed :
+  (forall t n j1 j2, t_get t n = Some j2 -> j1 <> j2 ->
+      t_release t n j1 = t /\ t_exists (t_release t n j1) n = true
+      /\ t_schedule (t_release t n j1) n 99 = (t_release t n j1, ErrJobAlreadyExists))
+  /\ (forall t n j, t_get t n = Some j -> t_exists (t_release t n j) n = false)
+  /\ (forall t n j m, m <> n -> t_get (t_release t n j) m = t_get t m).
+Proof.
+  split; [|split; [exact release_own | exact release_other_names]].
+  intros t n j1 j2 H Hne. rewrite (release_keeps_newer t n j1 j2 H Hne).
+  assert (He : t_exists t n = true) by (unfold t_exists; rewrite H; reflexivity).
+  split; [reflexivity | split; [exact He | apply duplicate_rejected; exact He]].
+Qed.
+Print Assumptions C02_rescheduled_job_stays_listed.
+
+(* ... which is FALSE of the tree as found, where the goroutine deleted by name: job 1 is scheduled
+   and cancelled, job 2 is scheduled under the same name, job 1's goroutine leaves (timer or context
+   branch) and deletes the name: job 2 is pending but no longer listed, and a third job of the same
+   name is accepted beside it *)
+Theorem C02_rescheduled_job_removed_refuted_on_pinned_tree :
+  exists n, let t1 := fst (t_schedule [] n 1) in
+            let t2 := fst (t_cancel t1 n) in
+            let t3 := fst (t_schedule t2 n 2) in
+            t_get t3 n = Some 2
+            /\ t_exists (t_del t3 n) n = false /\ snd (t_schedule (t_del t3 n) n 3) = Nil
+            /\ t_exists (t_release t3 n 1) n = true /\ snd (t_schedule (t_release t3 n 1) n 3) = ErrJobAlreadyExists.
+Proof. exists 7. vm_compute. repeat split; reflexivity. Qed.
+Print Assumptions C02_rescheduled_job_removed_refuted_on_pinned_tree.
+
 (* a one-off job is claimed by at most one external call: a successful RunJob and a successful
    CancelJob never both occur, and while the name is in the table nobody holds the job *)
 Theorem C02_claim_exclusive :
@@ -269,6 +301,140 @@ Theorem C02_obs_periodic_runjob_can_block :
     quiescent cfP s = true /\ r_pc s = RSend /\ g_pc s = GCtxFin /\ lock_free s = false.
 Proof. exists periodic_block_schedule. exact periodic_block. Qed.
 Print Assumptions C02_obs_periodic_runjob_can_block.
+
+(* ---------------------------------------------------------------------------------------------
+   Timed scripts (Model/C02_Script.v): what the implementation is compared with.  A script is any
+   list of calls at any instants on a one-off or periodic job; [finals sc] are the states in which
+   the script can end over ALL interleavings of the events that share an instant, and
+   [outcomes sc] what is observable of them. *)
+
+(* every final state of every script is a state of the job machine reached by some schedule, and
+   the recorded start instants are the machine's run counter: the theorems above apply to the
+   outcome sets the implementation is checked against *)
+Theorem C02_script_states_reachable :
+  forall sc t, In t (finals sc) ->
+    (exists sch, t_core t = run (step (sc_cfg sc)) sch (init (sc_cfg sc)))
+    /\ runs (t_core t) = sat2 (N.of_nat (length (t_starts t))).
+Proof. exact script_inv_holds. Qed.
+Print Assumptions C02_script_states_reachable.
+
+(* never twice, at script level: in every outcome the model predicts for ANY script, a one-off job
+   has at most one start, nothing overlaps, no channel operation panics *)
+Theorem C02_script_outcomes_never_twice :
+  forall sc o, In o (outcomes sc) ->
+    o_panic o = false /\ o_overlap o <= 1 /\ (sc_kind sc = OneOff -> (length (o_starts o) <= 1)%nat).
+Proof. exact script_never_twice. Qed.
+Print Assumptions C02_script_outcomes_never_twice.
+
+(* exactly once, never silently dropped, at script level (repaired code): in EVERY one-off script
+   -- any number of RunJob / CancelJob / context-cancel / re-schedule / JobExists calls at any
+   instants -- every state in which the script can end, over all interleavings, in which no
+   CancelJob has reported success, the parent context is alive, jobFunc is not in progress and the
+   job's time is not after the end of the script, has exactly one start of jobFunc *)
+Theorem C02_script_exactly_once :
+  forall sc, sc_kind sc = OneOff -> sc_variant sc = Fixed ->
+  forall t, In t (finals sc) ->
+    sc_due sc <= sc_end sc ->
+    cancel_ok (t_core t) = false -> ctx_done (t_core t) = false -> running (t_core t) = 0 ->
+    length (t_starts t) = 1%nat.
+Proof. exact script_exactly_once. Qed.
+Print Assumptions C02_script_exactly_once.
+
+(* the same with hypotheses on what is OBSERVED of the calls: no CancelJob call of the script
+   returned nil and no context cancellation was issued ([Ret Nil] is the status of an issued KCtx
+   call) -- the machine's [cancel_ok] / [ctx_done] flags are raised by nothing else *)
+Theorem C02_script_exactly_once_observable :
+  forall sc, sc_kind sc = OneOff -> sc_variant sc = Fixed ->
+  forall t, In t (finals sc) ->
+    sc_due sc <= sc_end sc ->
+    no_ret_nil sc KCancel (t_calls t) -> no_ret_nil sc KCtx (t_calls t) -> running (t_core t) = 0 ->
+    length (o_starts (outcome_of t)) = 1%nat.
+Proof. exact script_exactly_once_obs. Qed.
+Print Assumptions C02_script_exactly_once_observable.
+
+(* "an early-run request that reports success means the job runs", for every one-off script:
+   a final state in which some RunJob call returned nil, no context cancellation was issued and
+   jobFunc is not in progress has exactly one start -- whatever else the script did (cancellation
+   requests, further run requests), and whether or not the job's time lies inside the script *)
+Theorem C02_script_run_success_runs :
+  forall sc, sc_kind sc = OneOff -> sc_variant sc = Fixed ->
+  forall t, In t (finals sc) ->
+    (exists i cl, nth_error (sc_calls sc) i = Some cl /\ cl_kind cl = KRun /\ nth_error (t_calls t) i = Some (Ret Nil)) ->
+    no_ret_nil sc KCtx (t_calls t) -> running (t_core t) = 0 ->
+    length (o_starts (outcome_of t)) = 1%nat.
+Proof. exact script_run_success_runs. Qed.
+Print Assumptions C02_script_run_success_runs.
+
+(* "a job cancelled clearly before its time never runs", for every one-off script that ends before
+   the job's time: if a CancelJob call returned nil the job has not run, and NO continuation of
+   the job machine from that final state -- the timer expiring, any number of further run requests,
+   in any order -- ever runs it *)
+Theorem C02_script_cancel_before_due :
+  forall sc, sc_kind sc = OneOff -> sc_variant sc = Fixed -> sc_end sc < sc_due sc ->
+  forall t, In t (finals sc) ->
+    (exists i cl, nth_error (sc_calls sc) i = Some cl /\ cl_kind cl = KCancel /\ nth_error (t_calls t) i = Some (Ret Nil)) ->
+    o_starts (outcome_of t) = []
+    /\ forall sch, runs (run (step cfF) sch (t_core t)) = 0.
+Proof. exact script_cancel_before_due. Qed.
+Print Assumptions C02_script_cancel_before_due.
+
+(* ... and for EVERY one-off script, whatever its length and whatever else it does (run requests
+   before, at or after the job's time, further cancellations, context cancellation, re-scheduling):
+   if a CancelJob call issued at an instant before the job's time returned nil, the job has no
+   start in any state in which the script can end.  (A call returns within its instant or never,
+   so the nil was returned, with the system at rest, before the timer could expire.) *)
+Theorem C02_script_cancelled_before_never_runs :
+  forall sc, sc_kind sc = OneOff -> sc_variant sc = Fixed ->
+  forall i0 cl0, nth_error (sc_calls sc) i0 = Some cl0 -> cl_kind cl0 = KCancel -> cl_at cl0 < sc_due sc ->
+  forall t, In t (finals sc) -> nth_error (t_calls t) i0 = Some (Ret Nil) ->
+    o_starts (outcome_of t) = [].
+Proof. exact script_cancelled_before_never_runs. Qed.
+Print Assumptions C02_script_cancelled_before_never_runs.
+
+(* ... and therefore in every OBSERVED outcome that the correspondence check accepts *)
+Theorem C02_checked_observation_never_twice :
+  forall c sc os, agree c = true -> c_body c = Timed sc os ->
+    forall ob, In ob os ->
+      o_panic (ob_out ob) = false /\ o_overlap (ob_out ob) <= 1
+      /\ (sc_kind sc = OneOff -> (length (o_starts (ob_out ob)) <= 1)%nat).
+Proof. exact checked_never_twice. Qed.
+Print Assumptions C02_checked_observation_never_twice.
+
+(* exactly once for a CHECKED observation: whenever the correspondence check accepts a case, for a
+   one-off script whose time lies inside the script, an observed outcome in which no
+   CancelJob(-IfExists) call returned nil or was silent, no context cancellation was issued and
+   jobFunc was not in progress at the end shows exactly one start of jobFunc.  (The observed
+   outcome is that of a final state of the model's script; the theorem above applies to it.) *)
+Theorem C02_checked_observation_exactly_once :
+  forall c sc os, agree c = true -> c_body c = Timed sc os ->
+    sc_kind sc = OneOff -> sc_variant sc = Fixed -> sc_due sc <= sc_end sc ->
+    forall ob, In ob os -> ob_running ob = 0 ->
+      obs_no_success sc KCancel (o_calls (ob_out ob)) -> obs_no_success sc KCtx (o_calls (ob_out ob)) ->
+      length (o_starts (ob_out ob)) = 1%nat.
+Proof. exact checked_exactly_once. Qed.
+Print Assumptions C02_checked_observation_exactly_once.
+
+(* the two clauses above for CHECKED observations *)
+Theorem C02_checked_observation_run_success_runs :
+  forall c sc os, agree c = true -> c_body c = Timed sc os ->
+    sc_kind sc = OneOff -> sc_variant sc = Fixed ->
+    forall ob, In ob os -> ob_running ob = 0 ->
+      (exists i cl, nth_error (sc_calls sc) i = Some cl /\ cl_kind cl = KRun
+                    /\ nth_error (o_calls (ob_out ob)) i = Some (Ret Nil)) ->
+      obs_no_success sc KCtx (o_calls (ob_out ob)) ->
+      length (o_starts (ob_out ob)) = 1%nat.
+Proof. exact checked_run_success. Qed.
+Print Assumptions C02_checked_observation_run_success_runs.
+
+Theorem C02_checked_observation_cancel_before_due :
+  forall c sc os, agree c = true -> c_body c = Timed sc os ->
+    sc_kind sc = OneOff -> sc_variant sc = Fixed ->
+    forall ob, In ob os ->
+      (exists i cl, nth_error (sc_calls sc) i = Some cl /\ cl_kind cl = KCancel /\ cl_at cl < sc_due sc
+                    /\ nth_error (o_calls (ob_out ob)) i = Some (Ret Nil)) ->
+      o_starts (ob_out ob) = [].
+Proof. exact checked_cancel_before. Qed.
+Print Assumptions C02_checked_observation_cancel_before_due.
 
 (* ---------------------------------------------------------------------------------------------
    Non-vacuity. *)
@@ -306,3 +472,39 @@ Example C02_table_example :
   /\ t_run t1 7 false = ([], Some 1)
   /\ t_schedule (fst (t_run t1 7 false)) 7 2 = ([(7, 2)], Nil).
 Proof. vm_compute. repeat split; reflexivity. Qed.
+
+(* scripts: the tie (RunJob at the job's instant) has final states, all of them meet the
+   hypotheses of C02_script_exactly_once and have one start; in the tree as found one of the final
+   states of the same script has none although RunJob returned nil *)
+Definition tie_script (v : variant) : script :=
+  {| sc_kind := OneOff; sc_variant := v; sc_due := 5; sc_dur := 0; sc_ticks := 0;
+     sc_calls := [ {| cl_at := 5; cl_kind := KRun |} ]; sc_end := 9 |}.
+Example C02_tie_script_fixed_and_pinned :
+  finals (tie_script Fixed) <> []
+  /\ forallb (fun t => negb (cancel_ok (t_core t)) && negb (ctx_done (t_core t)) && (running (t_core t) =? 0)
+                       && (N.of_nat (length (t_starts t)) =? 1)) (finals (tie_script Fixed)) = true
+  /\ existsb (fun o => list_eqb cst_eqb (o_calls o) [Ret Nil] && (N.of_nat (length (o_starts o)) =? 0))
+             (outcomes (tie_script Pinned)) = true.
+Proof. vm_compute. split; [discriminate | split; reflexivity]. Qed.
+
+(* scripts: a run request one millisecond before the job's time, and a cancellation in a script
+   that ends before the job's time: final states exist and meet the hypotheses of
+   C02_script_run_success_runs / C02_script_cancel_before_due *)
+Example C02_script_examples :
+  let sc_run := {| sc_kind := OneOff; sc_variant := Fixed; sc_due := 5; sc_dur := 2; sc_ticks := 0;
+                   sc_calls := [ {| cl_at := 4; cl_kind := KRun |}; {| cl_at := 4; cl_kind := KCancel |} ]; sc_end := 9 |} in
+  let sc_can := {| sc_kind := OneOff; sc_variant := Fixed; sc_due := 9; sc_dur := 0; sc_ticks := 0;
+                   sc_calls := [ {| cl_at := 3; cl_kind := KCancel |}; {| cl_at := 3; cl_kind := KRun |} ]; sc_end := 6 |} in
+  existsb (fun t => list_eqb cst_eqb (t_calls t) [Ret Nil; Ret ErrNoSuchJob] && (running (t_core t) =? 0)
+                    && list_eqb N.eqb (t_starts t) [4]) (finals sc_run) = true
+  /\ existsb (fun t => list_eqb cst_eqb (t_calls t) [Ret Nil; Ret ErrNoSuchJob] && list_eqb N.eqb (t_starts t) []) (finals sc_can) = true.
+Proof. vm_compute. split; reflexivity. Qed.
+
+(* a cancellation two milliseconds before the job's time in a script that goes on well after it,
+   with a run request at the job's time: final states exist in which the CancelJob call returned
+   nil (hypotheses of C02_script_cancelled_before_never_runs) *)
+Example C02_script_cancel_example :
+  let sc := {| sc_kind := OneOff; sc_variant := Fixed; sc_due := 5; sc_dur := 1; sc_ticks := 0;
+               sc_calls := [ {| cl_at := 3; cl_kind := KCancel |}; {| cl_at := 5; cl_kind := KRun |} ]; sc_end := 9 |} in
+  existsb (fun t => list_eqb cst_eqb (t_calls t) [Ret Nil; Ret ErrNoSuchJob] && list_eqb N.eqb (t_starts t) []) (finals sc) = true.
+Proof. vm_compute. reflexivity. Qed.
